@@ -19,7 +19,7 @@ RULE = ("(transform) every parameter set with n <= 3 markets over volatility {0,
         "correlation changes and shocks on a real Fundamentals object driving real Markets, generation chunk 3 and 100; "
         "distinct = parameter sets / canonical history states")
 WIT = ["correlation_given_in_reverse_order", "zero_noise_path", "basis_probe", "affine_probe", "correlated_pair", "zero_vol_market_ignores_z", "hist_shock",
-       "hist_param_change", "hist_advance_across_chunk", "hist_past_values_compared", "hist_continuation_checked"]
+       "hist_param_change", "hist_advance_across_chunk", "hist_past_values_compared", "hist_continuation_checked", "hist_volatility_changed_between_nonzero_values"]
 VOL = [0, 0.125, 0.25, 0.5]
 DR = [-2.0 ** -6, 0, 2.0 ** -7]
 CO = [-0.5, -0.25, 0, 0.5, 0.75]
@@ -153,7 +153,8 @@ def zpattern(size, call_no):
 
 H_OPS = [("adv",)]
 for _i in (0, 1):
-    H_OPS += [("drift", _i, -2.0 ** -6), ("drift", _i, 2.0 ** -7), ("vol", _i, 0.0), ("vol", _i, 0.25), ("shock", _i, 0.5), ("shock", _i, 1.5)]
+    H_OPS += [("drift", _i, -2.0 ** -6), ("drift", _i, 2.0 ** -7), ("vol", _i, 0.0), ("vol", _i, 0.25), ("vol", _i, 0.5), ("shock", _i, 0.5),
+              ("shock", _i, 1.5)]
 H_OPS += [("corr", 0, 1, 0.5), ("corr", 1, 0, -0.25), ("uncorr", 0, 1), ("uncorr", 1, 0), ("shock", 2, 2.0)]
 
 
@@ -195,6 +196,8 @@ class HWorld:
             f.change_drift(op[1], op[2], time=t)
             self.wit.inc("hist_param_change")
         elif k == "vol":
+            if 0.0 != f.volatilities[op[1]] != op[2] != 0.0:
+                self.wit.inc("hist_volatility_changed_between_nonzero_values")
             f.change_volatility(op[1], op[2], time=t)
             self.wit.inc("hist_param_change")
         elif k == "corr":
@@ -331,8 +334,8 @@ def history_search(res, chunk, depth, seed):
 def run(tier, seed):
     res = common.Result("C12", tier, seed)
     run_grid(res, "transform", list(transform_cases(3 if tier == "quick" else 3)), transform_fn, seed)
-    for chunk in (3, 100):
-        history_search(res, chunk, 5 if tier == "quick" else 7, seed)
+    for chunk, dq, dt in ((3, 5, 7), (100, 4, 6)):
+        history_search(res, chunk, dq if tier == "quick" else dt, seed)
     res.coverage["exhaustive"] = True
     res.coverage["rule"] = RULE
     res.assumptions = ["NumPy's standard_normal is i.i.d. N(0,1): mean, standard deviation and correlation of log-returns then follow from drift + A z with A A^T = diag(vol) corr diag(vol); no statistics are sampled",
